@@ -810,6 +810,8 @@ fn run_scenario(mut s: Scn, thorough: bool) -> Report {
         f(&mut env);
     }
     env.remove();
+    r.notes.sort();
+    r.notes.dedup();
     r
 }
 
@@ -859,7 +861,18 @@ fn replay(v: &Value) -> Report {
     if faults.is_empty() && drop_close.is_none() {
         r = scratch;
     } else {
-        let cx = Ctx { shared, base_leaks: Some(&base.leaked), base_totals: Some(&base.totals), single_leaks: None, single_leaks_by_name: None, verbose: true };
+        // for a pair: what each deviation leaks on its own decides which call the key blames
+        let mut single_leaks: HashMap<Fault, BTreeSet<String>> = HashMap::new();
+        let mut by_name: HashMap<(String, i32), BTreeSet<String>> = HashMap::new();
+        if faults.len() > 1 {
+            let cxs = Ctx { shared, base_leaks: Some(&base.leaked), base_totals: Some(&base.totals), single_leaks: None, single_leaks_by_name: None, verbose: false };
+            for f in &faults {
+                let o = run_case(&mut s, &mut env, &[*f], None, &mut scratch, &cxs);
+                single_leaks.insert(*f, o.leaked.clone());
+                by_name.entry((o.fault_names[0].clone(), f.errno)).or_default().extend(o.leaked.iter().cloned());
+            }
+        }
+        let cx = Ctx { shared, base_leaks: Some(&base.leaked), base_totals: Some(&base.totals), single_leaks: Some(&single_leaks), single_leaks_by_name: Some(&by_name), verbose: true };
         run_case(&mut s, &mut env, &faults, drop_close, &mut r, &cx);
     }
     if let Some(f) = s.fini.as_mut() {
